@@ -501,6 +501,104 @@ theorem elab_arith_exact {Γ : Env} {dbg : Bool} {o : BinOp} {a b : SExpr} {e' :
           obtain ⟨ta, tb, h1, h2, h3⟩ := binary_operands_equal hsame hs
           exact ⟨i, _, _, ta, tb, rfl, h1, h2, h3⟩)
 
+/-- the scalar kind a vector / matrix operation is done in is never an untyped literal kind (table fact about the
+    re-extracted `Gen.TypingTables.litVecRemap`) -/
+theorem arithScalar_concrete (ts : Scalar) (dim : Dim) (hd : (Layer.ofDim (arithScalar ts dim) dim).isVecOrMat = true) :
+    (Layer.ofDim (arithScalar ts dim) dim).extractScalar ≠ some .intLiteral ∧
+    (Layer.ofDim (arithScalar ts dim) dim).extractScalar ≠ some .floatLiteral := by
+  cases dim with
+  | scalar => simp [Layer.ofDim, Layer.isVecOrMat] at hd
+  | vector n => cases ts <;> simp [arithScalar, litVecRemap, Layer.ofDim, Layer.extractScalar]
+  | matrix x y => cases ts <;> simp [arithScalar, litVecRemap, Layer.ofDim, Layer.extractScalar]
+
+theorem elabArith_inv {o : BinOp} {a b n : IExpr} {τa τb τ' : ETy} (h : elabArith o a τa b τb = .ok (n, τ')) :
+    ∃ ts dim ca cb, find τa (Ty.mk {} (Layer.ofDim (arithScalar ts dim) dim)).r = .ok (some ca) ∧
+      find τb (Ty.mk {} (Layer.ofDim (arithScalar ts dim) dim)).r = .ok (some cb) ∧ arithBuild o ca cb a b = .ok (n, τ') := by
+  unfold elabArith at h
+  split at h
+  all_goals (first | (simp at h; done) | skip)
+  split at h
+  all_goals (first | (simp at h; done) | skip)
+  rename_i ts hts
+  split at h
+  all_goals (first | (simp at h; done) | skip)
+  rename_i dim hdim
+  split at h
+  all_goals (first | (simp at h; done) | skip)
+  rename_i ca hfa
+  split at h
+  all_goals (first | (simp at h; done) | skip)
+  rename_i cb hfb
+  exact ⟨ts, dim, ca, cb, hfa, hfb, h⟩
+
+theorem arithBuild_inv {o : BinOp} {ca cb : Conversion} {a b n : IExpr} {τ' : ETy}
+    (h : arithBuild o ca cb a b = .ok (n, τ')) :
+    ∃ i a' b', applyConv ca a = .ok a' ∧ applyConv cb b = .ok b' ∧ n = .op i (.cons a' (.cons b' .nil)) := by
+  unfold arithBuild at h
+  split at h
+  all_goals (first | (simp at h; done) | skip)
+  split at h
+  all_goals (first | (simp at h; done) | skip)
+  split at h
+  all_goals (first | (simp at h; done) | skip)
+  split at h
+  all_goals (first | (simp at h; done) | skip)
+  rename_i a' haa
+  split at h
+  all_goals (first | (simp at h; done) | skip)
+  rename_i b' hbb
+  split at h
+  all_goals (first | (simp at h; done) | skip)
+  rename_i i hi
+  split at h
+  all_goals (first | (simp at h; done) | skip)
+  simp only [Except.ok.injEq, Prod.mk.injEq] at h
+  exact ⟨i, a', b', haa, hbb, h.1.symm⟩
+
+/-- **Vector and matrix operators are done in a concrete scalar kind** (fix 40c6233): the two operands of an accepted
+    arithmetic / comparison / bit operator that works on vectors or matrices never have the element kind `IntLiteral` /
+    `FloatLiteral` (`v * 1.5` for `int3 v` used to be typed `Vector(FloatLiteral, 3)`, a type no target can express) -/
+theorem elab_arith_vector_kind_concrete {Γ : Env} {dbg : Bool} {o : BinOp} {a b : SExpr} {e' : IExpr} {τ : ETy}
+    (ho : o.cls = .arith) (h : elabE dbg Γ (.bin o a b) = .ok (e', τ)) :
+    ∃ i a' b' ta tb, e' = .op i (.cons a' (.cons b' .nil)) ∧ HasType Γ a' ta ∧ HasType Γ b' tb ∧ ta.ty = tb.ty ∧
+      (ta.ty.layer.isVecOrMat = true →
+        ta.ty.layer.extractScalar ≠ some .intLiteral ∧ ta.ty.layer.extractScalar ≠ some .floatLiteral) := by
+  obtain ⟨i, a', b', ta, tb, rfl, h1, h2, h3⟩ := elab_arith_exact ho h
+  refine ⟨i, a', b', ta, tb, rfl, h1, h2, h3, ?_⟩
+  simp only [elabE] at h
+  split at h
+  · simp at h
+  · rename_i a1 τa ha
+    have iha := elab_sound ha
+    split at h
+    · simp at h
+    · simp only [ho] at h
+      split at h
+      · simp at h
+      · rename_i n τn hn
+        obtain ⟨hnn, _⟩ := selfCheck_type h
+        obtain ⟨ts, dim, ca, cb, hfa, _, hb⟩ := elabArith_inv hn
+        obtain ⟨i2, a2, b2, haa, _, rfl⟩ := arithBuild_inv hb
+        simp at hnn
+        obtain ⟨_, rfl, _⟩ := hnn
+        obtain ⟨τa', t1, t2, _⟩ := applyConv_type iha hfa haa
+        have e1 := typeOf_of_hasType _ _ t1
+        have e2 := typeOf_of_hasType _ _ h1
+        rw [e1] at e2
+        simp at e2; subst e2
+        rw [t2]
+        exact arithScalar_concrete ts dim
+
+/-- non-vacuity: `int3 v0; v0 * 1.5` is done in `float3` (both operands cast to `float3`), `bool3`-free `v0 + 1` stays `int3` -/
+example :
+    ((match elabE true { vars := [⟨{}, .vector .int32 3⟩], funcs := [] } (.bin .multiply (.var 0) (.lit .floatLiteral)) with
+      | .ok (.op .multiply (.cons (.cast t1 (.var 0)) (.cons (.cast t2 (.lit .floatLiteral)) .nil)), τ) =>
+        decide (τ = ⟨⟨{}, .vector .float32 3⟩, .rvalue⟩ ∧ t1 = ⟨{}, .vector .float32 3⟩ ∧ t2 = t1)
+      | _ => false) &&
+     (match elabE true { vars := [⟨{}, .vector .int32 3⟩], funcs := [] } (.bin .add (.var 0) (.lit .intLiteral)) with
+      | .ok (_, τ) => decide (τ = ⟨⟨{}, .vector .int32 3⟩, .rvalue⟩)
+      | _ => false)) = true := by decide
+
 /-- **Accepted calls.**  The callee exists, the result has its return type, and every argument expression has
     exactly the type of its parameter — no implicit conversion remains. -/
 theorem elab_call_args_exact {Γ : Env} {dbg : Bool} {name : Nat} {args : SArgs} {e' : IExpr} {τ : ETy}
